@@ -167,6 +167,8 @@ func VerifHarness_Step(lo, hi, fork uint64) {
 		if op < RSVJNAL || op > VRJNAL {
 			verifAssert((verifWorkAlloc()-alloc0)/64 <= used+128, "C20: bytes allocated bounded by gas paid")
 		}
+		// (known finding: the reference-journal instruction reads ceil(len/32) slots for its flat fee)
+		verifKnown("C20-vrjnal-length-driven-loop", op == VRJNAL && env.db.reads > 8)
 		verifAssert(env.db.reads <= used/20+16, "C20: state reads bounded by gas paid")
 	}
 
